@@ -600,11 +600,26 @@ def _thread_boolean_result(blk):
         return
     iff = blk.epilogue[0]
     t, neg = iff.test, False
-    while isinstance(t, ast.UnaryOp) and isinstance(t.op, ast.Not):
+    rest = None
+    if isinstance(t, ast.BoolOp) and isinstance(t.op, ast.And) and isinstance(t.values[0], ast.Name) and t.values[0].id == blk.ret \
+            and not any(isinstance(x, ast.Name) and x.id == blk.ret for v_ in t.values[1:] for x in ast.walk(v_)):
+        # `if <result> and REST:` - a false result takes the else branch, a true one leaves `if REST:`
+        rest = t.values[1] if len(t.values) == 2 else ast.copy_location(ast.BoolOp(op=ast.And(), values=list(t.values[1:])), t)
+        t = t.values[0]
+    while rest is None and isinstance(t, ast.UnaryOp) and isinstance(t.op, ast.Not):
         t, neg = t.operand, not neg
     if not (isinstance(t, ast.Name) and t.id == blk.ret):
         return
     sites = []
+
+    def branch_for(k):
+        if rest is None:
+            return iff.body if (k != neg) else iff.orelse
+        if not k:
+            return iff.orelse
+        n_ = ast.copy_location(ast.If(test=copy.deepcopy(rest), body=copy.deepcopy(iff.body), orelse=copy.deepcopy(iff.orelse)), iff)
+        ast.fix_missing_locations(n_)
+        return [n_]
 
     def scan(stmts, owner_ok=True):
         for i, s_ in enumerate(stmts):
@@ -638,17 +653,21 @@ def _thread_boolean_result(blk):
         stmts, i = site
         if isinstance(stmts[i].value, ast.Constant):
             k = stmts[i].value.value
-            taken = iff.body if (k != neg) else iff.orelse
+            taken = branch_for(k)
             stmts[i:i + 1] = copy.deepcopy(taken)
         else:
             # a boolean expression returned: the `if` is taken on it directly
             tb, fb = (iff.orelse, iff.body) if neg else (iff.body, iff.orelse)
-            new_if = ast.copy_location(ast.If(test=stmts[i].value, body=copy.deepcopy(tb) or [ast.copy_location(ast.Pass(), iff)], orelse=copy.deepcopy(fb)), stmts[i])
+            tst = stmts[i].value
+            if rest is not None:
+                tst = ast.copy_location(ast.BoolOp(op=ast.And(), values=[tst] + (copy.deepcopy(rest.values) if isinstance(rest, ast.BoolOp) and isinstance(rest.op, ast.And)
+                                                                                   else [copy.deepcopy(rest)])), tst)
+            new_if = ast.copy_location(ast.If(test=tst, body=copy.deepcopy(tb) or [ast.copy_location(ast.Pass(), iff)], orelse=copy.deepcopy(fb)), stmts[i])
             ast.fix_missing_locations(new_if)
             stmts[i:i + 1] = [new_if]
     for site in [x for x in sites if len(x) == 3]:
         stmts, i, _ = site
-        taken = iff.body if (False != neg) else iff.orelse      # falling off the end returns None: falsy
+        taken = branch_for(False)      # falling off the end returns None: falsy
         stmts[i:i + 1] = copy.deepcopy(taken)
     blk.epilogue = []
     blk.body = _truncate_dead(blk.body)
@@ -1031,7 +1050,8 @@ class _CmpCanon(ast.NodeTransformer):
         self.generic_visit(node)
         if len(node.ops) > 1:
             mids = node.comparators[:-1]
-            if all(isinstance(m, (ast.Name, ast.Constant)) or _stable_path(m) for m in mids):
+            if all(isinstance(m, (ast.Name, ast.Constant)) or _stable_path(m)
+                   or (isinstance(m, ast.Subscript) and isinstance(m.value, ast.Name) and isinstance(m.slice, ast.Constant)) for m in mids):
                 operands = [node.left] + list(node.comparators)
                 parts = []
                 for i, op in enumerate(node.ops):
@@ -1165,6 +1185,85 @@ def _merge_dict_stores(fdef):
                 continue
             i += 1
     go(fdef.body)
+
+
+def _scalar_dicts(fdef, log=None):
+    """N41: a local dict that is only a bundle of named slots,
+
+        D = {}                         (removed)
+        D[K1] = E1; D[K2] = E2         D__K1 = E1; D__K2 = E2         K constant or constant path (Op.GET)
+        ... D[K1] ... D[K2] ...        ... D__K1 ... D__K2 ...
+
+    when D is bound once, to an empty display, every other occurrence of D is `D[K]`, and each slot that is read is stored by a statement of the
+    block that holds `D = {}`, after it and before the statements that read it (so no read can come before its store)."""
+    params = {a.arg for a in ast.walk(fdef.args) if isinstance(a, ast.arg)}
+    nested = set()
+    for n in ast.walk(fdef):
+        if n is not fdef and isinstance(n, (ast.FunctionDef, ast.AsyncFunctionDef, ast.Lambda, ast.ClassDef, ast.ListComp, ast.SetComp, ast.DictComp, ast.GeneratorExp)):
+            nested |= {x.id for x in ast.walk(n) if isinstance(x, ast.Name)}
+
+    def blocks(ss):
+        yield ss
+        for st in ss:
+            if isinstance(st, (ast.FunctionDef, ast.AsyncFunctionDef, ast.ClassDef)):
+                continue
+            for owner, f in ([(st, "prologue"), (st, "body"), (st, "epilogue")] if isinstance(st, InlineBlock) else _child_lists(st)):
+                yield from blocks(getattr(owner, f))
+
+    def keytext(k):
+        if isinstance(k, ast.Constant) and isinstance(k.value, (str, int)) and not isinstance(k.value, bool):
+            return re.sub(r"\W", "_", str(k.value))
+        if _stable_path(k):
+            return re.sub(r"\W", "_", ast.unparse(k))
+        return None
+    for blk in list(blocks(fdef.body)):
+        for i, st in enumerate(blk):
+            if not (isinstance(st, ast.Assign) and len(st.targets) == 1 and isinstance(st.targets[0], ast.Name) and isinstance(st.value, ast.Dict) and not st.value.keys):
+                continue
+            D = st.targets[0].id
+            if D in params or D in nested:
+                continue
+            occ = [n for n in ast.walk(fdef) if isinstance(n, ast.Name) and n.id == D]
+            subs = {id(n.value): n for n in ast.walk(fdef) if isinstance(n, ast.Subscript) and isinstance(n.value, ast.Name) and n.value.id == D}
+            if any(id(n) not in subs for n in occ if n is not st.targets[0]):
+                continue
+            if any(keytext(sb.slice) is None or isinstance(sb.ctx, ast.Del) for sb in subs.values()):
+                continue
+            # where each slot is stored (top level of blk, after the display) and read
+            augs = {id(x.target) for x in ast.walk(fdef) if isinstance(x, ast.AugAssign)}
+            first_store = {}
+            ok = True
+            for j, s2 in enumerate(blk):
+                tops = [t for t in (s2.targets if isinstance(s2, ast.Assign) else []) if isinstance(t, ast.Subscript) and id(t.value) in subs]
+                for n in ast.walk(s2):
+                    if isinstance(n, ast.Subscript) and id(n.value) in subs:
+                        kt = keytext(n.slice)
+                        if j <= i:
+                            ok = False
+                        elif (isinstance(n.ctx, ast.Load) or id(n) in augs) and not (kt in first_store and first_store[kt] < j):
+                            ok = False
+                for t in tops:
+                    first_store.setdefault(keytext(t.slice), j)
+            inside = {id(n) for s2 in blk for n in ast.walk(s2)}
+            if not ok or any(id(sb) not in inside for sb in subs.values()):
+                continue
+            names = {keytext(sb.slice): f"{D}__{keytext(sb.slice)}" for sb in subs.values()}
+            if len(set(names.values())) != len(names) or len({ast.unparse(sb.slice) for sb in subs.values()}) != len(names):
+                continue
+
+            class _Slots(ast.NodeTransformer):
+                def visit_Subscript(s_, node):
+                    if id(node.value) in subs:
+                        return ast.copy_location(ast.Name(id=names[keytext(node.slice)], ctx=type(node.ctx)()), node)
+                    s_.generic_visit(node)
+                    return node
+            blk[i] = ast.copy_location(ast.Pass(), st)
+            _Slots().visit(fdef)
+            if len(blk) > 1:
+                del blk[i]
+            if log is not None:
+                log.append((D, sorted(names.values()), getattr(st, "lineno", 0)))
+            return _scalar_dicts(fdef, log)
 
 
 def _eliminate_aliases(fdef, log=None):
@@ -1650,6 +1749,24 @@ class Normalizer:
             if nm not in used:
                 self.dead |= {q for q in qs if q in inlined}
 
+    def _const_via_member(self, e, modname, cname):
+        """self.<member>.UPPER(.UPPER)*: a class-level constant reached through a member object that the class binds in __init__ only (the dongle, the
+        pin file ...): the same value wherever it is evaluated within one request"""
+        n, x = 0, e
+        while isinstance(x, ast.Attribute) and re.fullmatch(r"_?[A-Z][A-Z0-9_]*", x.attr):
+            x = x.value
+            n += 1
+        if not (n >= 1 and isinstance(x, ast.Attribute) and isinstance(x.value, ast.Name) and x.value.id == "self" and cname is not None):
+            return False
+        cdef = self.classes.get((modname, cname))
+        if cdef is None:
+            return False
+        for m in cdef.body:
+            if isinstance(m, ast.FunctionDef) and m.name != "__init__":
+                if any(isinstance(a, ast.Attribute) and a.attr == x.attr and isinstance(a.ctx, (ast.Store, ast.Del)) for a in ast.walk(m)):
+                    return False
+        return True
+
     def _hexfuncs(self, modname):
         """module-level names standing for binascii.hexlify / b2a_hex (and `binascii` itself when the module is imported)"""
         cache = self.__dict__.setdefault("_hexcache", {})
@@ -1679,6 +1796,10 @@ class Normalizer:
         fdef.body = _sink_returns(fdef.body)       # again: a display completed above may now be returned through a temporary
         fdef.body = _drop_dead_defs(fdef, _flatten_blocks(self._stmts(fdef.body, modname, cname, stack, state)))
         _resplit_assigns(fdef.body)
+        sd_ = []
+        _scalar_dicts(fdef, sd_)
+        for d_, ns_, ln_ in sd_:
+            self.lowered.append((stack[0], ln_, f"dict slots {d_}->{ns_}"))
         al_ = []
         _eliminate_aliases(fdef, al_)
         for y_, x_, ln_ in al_:
@@ -1751,6 +1872,22 @@ class Normalizer:
                 for s_ in low:
                     out += self._stmt(s_, modname, cname, stack, state)
                 return out
+        if isinstance(st, ast.If) and isinstance(st.test, ast.BoolOp) and isinstance(st.test.op, ast.And) and len(st.test.values) >= 2 \
+                and (not st.orelse or (len(st.orelse) <= 3 and not any(isinstance(x, (ast.If, ast.For, ast.While, ast.Try, ast.With, ast.FunctionDef, ast.Lambda, InlineBlock))
+                                                                       for s_ in st.orelse for x in ast.walk(s_)))):
+            # N42: `if A and C(h()): B` (no else; h an inlinable helper in a later operand)  ->  `if A: if C(h()): B` - the same short-circuit, and h's
+            # call is now in a position where it is always evaluated, so that N1 can inline it
+            vals = st.test.values
+            for k in range(1, len(vals)):
+                if self._first_call(vals[k], modname, cname, stack) is not None:
+                    def conj(vs, at):
+                        return vs[0] if len(vs) == 1 else ast.copy_location(ast.BoolOp(op=ast.And(), values=list(vs)), at)
+                    # (a short straight-line else branch is taken on either way of failing: it is repeated)
+                    inner = ast.copy_location(ast.If(test=conj(vals[k:], vals[k]), body=st.body, orelse=st.orelse), st)
+                    outer = ast.copy_location(ast.If(test=conj(vals[:k], st.test), body=[inner], orelse=copy.deepcopy(st.orelse)), st)
+                    ast.fix_missing_locations(outer)
+                    self.lowered.append((state["caller"], getattr(st, "lineno", 0), "and-split"))
+                    return self._stmt(outer, modname, cname, stack, state)
         if isinstance(st, ast.If):
             st.body = rec(st.body)
             st.orelse = rec(st.orelse)
@@ -1910,6 +2047,31 @@ class Normalizer:
             low = self._dict_get_lowering(st, modname, cname, state)
             if low is not None:
                 return low
+        if isinstance(st, (ast.Assign, ast.Return)) and isinstance(st.value, ast.Call) and len(st.value.args) == 3 and not st.value.keywords \
+                and ast.unparse(st.value.func) in ("functools.reduce", "reduce") and isinstance(st.value.args[0], ast.Lambda):
+            # N40: x = functools.reduce(lambda acc, item: E, XS, INIT)  ->  acc = INIT; for item in XS: acc = E; x = acc
+            lam, xs, init = st.value.args
+            la = lam.args
+            if len(la.args) == 2 and not (la.vararg or la.kwarg or la.kwonlyargs or la.defaults or la.posonlyargs):
+                self.counter += 1
+                names = {}
+                for a_ in la.args:
+                    names[a_.arg] = a_.arg if a_.arg not in state["locals"] else f"{a_.arg}__red{self.counter}"
+                body = _Rename({k_: v_ for k_, v_ in names.items() if k_ != v_}).visit(copy.deepcopy(lam.body)) if any(k_ != v_ for k_, v_ in names.items()) else lam.body
+                acc, item = (names[a_.arg] for a_ in la.args)
+                state["locals"] |= {acc, item}
+                a0 = ast.Assign(targets=[ast.Name(id=acc, ctx=ast.Store())], value=init, type_comment=None)
+                step = ast.Assign(targets=[ast.Name(id=acc, ctx=ast.Store())], value=body, type_comment=None)
+                loop = ast.For(target=ast.Name(id=item, ctx=ast.Store()), iter=xs, body=[step], orelse=[], type_comment=None)
+                st.value = ast.copy_location(ast.Name(id=acc, ctx=ast.Load()), st.value)
+                for o in (a0, step, loop):
+                    ast.copy_location(o, st)
+                    ast.fix_missing_locations(o)
+                self.lowered.append((state["caller"], getattr(st, "lineno", 0), "reduce"))
+                out = []
+                for s_ in (a0, loop, st):
+                    out += self._stmt(s_, modname, cname, stack, state)
+                return out
         if isinstance(st, (ast.Assign, ast.Return)) and isinstance(st.value, (ast.DictComp, ast.ListComp)):
             low = self._comp_lowering(st, modname, cname, stack, state)
             if low is not None:
@@ -2031,7 +2193,8 @@ class Normalizer:
         # a parameter that the helper never re-binds and that is given a constant or a constant path (Cmd.UNLOCK, self.CMD.X) is that constant
         consts_ = {}
         for nm in params:
-            if nm in binding and nm not in assigned and nm not in aliased and (_is_const(binding[nm]) or _stable_path(binding[nm])):
+            if nm in binding and nm not in assigned and nm not in aliased and (_is_const(binding[nm]) or _stable_path(binding[nm])
+                                                                              or self._const_via_member(binding[nm], modname, cname)):
                 consts_[nm] = binding[nm]
         if consts_:
             helper.body = _prune_const_ifs([_ConstSub(consts_).visit(s) for s in helper.body])
